@@ -47,6 +47,8 @@ pub trait Fam: 'static {
     const NAME: &'static str;
     /// identity (ids, tags) observable and ledger active
     const TRACKED: bool;
+    /// equal keys are distinguishable by their tag (stored-key identity is observable)
+    const IDENT: bool = Self::TRACKED;
     /// (key clones, value clones) made so far, for families that count `Clone::clone` calls themselves
     fn clone_counts() -> Option<(u64, u64)> {
         None
@@ -193,13 +195,25 @@ impl Fam for Copyf {
 
 // ---- raw: heap-owning std types, for the sanitizers ------------------------------------------
 
+/// class 1 is the EMPTY string: a zero-length `&str` needle is a legal, unusual input
+fn raw_key(class: u32) -> String {
+    if class == 1 {
+        String::new()
+    } else {
+        format!("key-{:04}", class)
+    }
+}
 impl KeyF for String {
     type Q = str;
     fn mk(class: u32, _tag: u32) -> Self {
-        format!("key-{:04}", class)
+        raw_key(class)
     }
     fn class(&self) -> u32 {
-        self[4..].parse().unwrap_or(u32::MAX)
+        if self.is_empty() {
+            1
+        } else {
+            self.get(4..).and_then(|s| s.parse().ok()).unwrap_or(u32::MAX)
+        }
     }
     fn tag(&self) -> u32 {
         0
@@ -208,17 +222,17 @@ impl KeyF for String {
         0
     }
     fn chk(&self, _: &'static str) -> bool {
-        self.len() == 8
+        self.len() == 8 || self.is_empty()
     }
     fn with_q<R>(class: u32, f: impl FnOnce(&str) -> R) -> R {
-        let s = format!("key-{:04}", class);
+        let s = raw_key(class);
         f(s.as_str())
     }
     fn dbg_render(class: u32, _: u32) -> String {
-        format!("{:?}", format!("key-{:04}", class))
+        format!("{:?}", raw_key(class))
     }
     fn disp_render(class: u32, _: u32) -> String {
-        format!("key-{:04}", class)
+        raw_key(class)
     }
 }
 impl ValF for Box<u32> {
@@ -429,6 +443,7 @@ impl Fam for NoDrop {
     type V = NdVal;
     const NAME: &'static str = "nodrop";
     const TRACKED: bool = false;
+    const IDENT: bool = true;
     fn clone_counts() -> Option<(u64, u64)> {
         Some(support::elems::nd_clone_counts())
     }
